@@ -6,7 +6,7 @@
     (Spec/Embed.v).  [c02_pre] spells the property's quantifier: supported
     fragment, plain variables, arrays are sets, repeated variables scalar,
     nothing planted begins with '?'.  This is the statement the repository's
-    own doc/patmatch.v leaves Admitted (submsg_patmatch), here for the model
+    own doc/patmatch.v leaves without a proof (submsg_patmatch), here for the model
     of the real algorithm including arrays and property variables. *)
 From Sheens Require Import Spec.Embed Proofs.MatchComplete Proofs.MatchLinear Proofs.EmbedsExtra
      Proofs.CplCheck.
